@@ -32,7 +32,10 @@ Definition c13_with (vni : bool) (t : term) : term :=
   | Some [et; qt; TList fl] =>
     match henv_of_term et, get_bool qt, map_opt c13_field fl with
     | Some e, Some q, Some fs =>
-      if negb (forallb (fun f => wf_ty false (snd (fst f)) && negb (has_fwd (snd (fst f)))) fs)
+      if negb (forallb (fun f => ident_ok (fst (fst f)) && wf_names (map fst e) (snd (fst f)) && wf_val (map fst e) (snd f)) fs
+               && nodup_str (map (fun f => fst (fst f)) fs) && forallb ident_ok (map fst e))
+      then terr "C13: names / tokens cannot be printed"
+      else if negb (forallb (fun f => wf_ty false (snd (fst f)) && negb (has_fwd (snd (fst f)))) fs)
       then terr "C13: annotation not printable / contains a forward reference"
       else
         let rs := map (fun f => (fst (fst f),
@@ -41,11 +44,11 @@ Definition c13_with (vni : bool) (t : term) : term :=
         if negb (forallb (fun f => accepted (snd (fst f))) rs)
         then terr "C13: annotation outside the accepted grammar"
         else
-          tcon "Obs" [ term_of_built (construct e vni true rs); term_of_built (construct e vni false rs);
-                       TList (map (fun f => tcon "FO" [tbool (is_instance e vni (snd (fst f)) (snd f));
+          tcon "Obs" [ term_of_built (construct e vni true true rs); term_of_built (construct e vni true false rs);
+                       TList (map (fun f => tcon "FO" [tbool (is_instance e vni true (snd (fst f)) (snd f));
                                                        tbool (conforms e (snd (fst f)) (snd f));
                                                        tbool (silent (snd (fst f)) (snd f))]) rs);
-                       term_of_built (construct e false true rs) ]
+                       term_of_built (construct e false true true rs) ]
     | _, _, _ => terr "C13: cannot decode"
     end
   | _ => terr "C13: bad input"
